@@ -15,8 +15,8 @@
      read [rd_in] (which depends on aliasing), `get_out` is the output side, `xor_in2out` as in Cell.v;
    * the block cipher backend is the opaque value [VCipher enc dec]; `encrypt_block` needs [enc],
      `decrypt_block` needs [dec]; their effect is [cE]/[cD] of the context, `*_par_blocks` the map;
-   * `clone`, `into`, `try_into`, `unwrap`, `as_mut_slice`, `as_slice`, `reborrow` are the identity
-     (in /repo they only convert between views of the same bytes);
+   * `into`, `try_into`, `unwrap`, `as_mut_slice`, `as_slice`, `reborrow` are the identity (in /repo they
+     only convert between views of the same bytes); `clone` yields a copy of the data;
    * integer literals without suffix are [VLit] and take the type of the other operand. *)
 From BM Require Export Cipher Ints Mir.
 Local Open Scope string_scope.
@@ -317,7 +317,7 @@ Definition data_method (C : ctx) (recv : val) (m : string) (args : list val) : o
   end.
 
 Definition is_identity_method (m : string) : bool :=
-  (m =s "clone") || (m =s "into") || (m =s "try_into") || (m =s "unwrap") || (m =s "as_mut_slice")
+  (m =s "into") || (m =s "try_into") || (m =s "unwrap") || (m =s "as_mut_slice")
   || (m =s "as_slice") || (m =s "reborrow").
 
 (* from_*_bytes and friends *)
@@ -763,6 +763,8 @@ Section Interp.
               | inl (Some (e, rs)) =>
                   if is_identity_method m then
                     match rs with [] => Some (Norm e r) | _ => None end
+                  else if m =s "clone" then                      (* a copy of the data, never an alias *)
+                    match rs, as_data e r with [], Some v => Some (Norm e (RV v)) | _, _ => None end
                   else if m =s "get_out" then
                     match as_place e r, rs with Some p, [] => Some (Norm e (RP (POut p))) | _, _ => None end
                   else if m =s "get" then
@@ -837,9 +839,10 @@ Section Interp.
                         match vals_of e rs with
                         | Some [a] =>
                             (* an argument given as a place (e.g. `self.iv.into()`) is passed by reference *)
-                            let a' := match rs with
-                                      | [RP p] => VRef (resolve e p)
-                                      | _ => a
+                            let a' := match a, rs with
+                                      | VRef _, _ | VTuple _, _ => a
+                                      | _, [RP p] => VRef (resolve e p)
+                                      | _, _ => a
                                       end in
                             match cipher_call e (VCipher enc dec) m a' with
                             | Some e' => Some (Norm e' (RV VUnit))
